@@ -75,6 +75,9 @@ func init() {
 		fnSpecs = append(fnSpecs, fnSpec{"protocol/thrift", "BufferReader", n, "BR_" + n})
 	}
 	fnSpecs = append(fnSpecs, fnSpec{"protocol/thrift", "SkipDecoderTpl", "Skip", "Tpl_Skip"})
+	for _, n := range []string{"SkipN", "Reset", "Next"} {
+		fnSpecs = append(fnSpecs, fnSpec{"protocol/thrift", "BytesSkipDecoder", n, "BSD_" + n})
+	}
 	fnSpecs = append(fnSpecs, fnSpec{"protocol/thrift/base", "BaseResp", "FastRead", "BaseResp_FastRead"})
 	fnSpecs = append(fnSpecs, fnSpec{"protocol/thrift/base", "Base", "FastRead", "Base_FastRead"})
 	for _, n := range []string{"appendUint32", "appendUint64"} {
@@ -1217,7 +1220,8 @@ func (f *fctx) assign(b *blk, st *ast.AssignStmt) {
 			f.fail(st, "op-assignment shape")
 		}
 		o := f.lhsObj(st.Lhs[0])
-		if o == nil {
+		_, fieldT, isField := f.fieldTarget(st.Lhs[0])
+		if o == nil && !isField {
 			f.fail(st, "op-assignment target")
 		}
 		var op token.Token
@@ -1238,6 +1242,11 @@ func (f *fctx) assign(b *blk, st *ast.AssignStmt) {
 			f.fail(st, "operator %s not supported", st.Tok)
 		}
 		l := f.expr(b, st.Lhs[0])
+		if isField {
+			r := f.exprAs(b, st.Rhs[0], fieldT)
+			f.bindTarget(b, st, st.Lhs[0], f.arith(st, op, fieldT, l, r))
+			return
+		}
 		r := f.exprAs(b, st.Rhs[0], valType(o.Type()))
 		f.bind(b, o, f.arith(st, op, valType(o.Type()), l, r))
 	}
@@ -2108,6 +2117,50 @@ func (f *fctx) callMulti(b *blk, call *ast.CallExpr, n int) []string {
 					return []string{t + ".1.2.1", t + ".1.2.2"}
 				}
 				f.fail(call, "interface method %s not supported", se.Sel.Name)
+			}
+		}
+	}
+	// NewSkipDecoderTpl(p).Skip(t, depth) with p the receiver: the generic skipper instantiated with the receiver's
+	// own (translated) SkipN method as its back end
+	if se, ok := stripParens(call.Fun).(*ast.SelectorExpr); ok && se.Sel.Name == "Skip" && f.fi.recv != nil {
+		if inner, ok := stripParens(se.X).(*ast.CallExpr); ok && len(inner.Args) == 1 {
+			fnId := stripParens(inner.Fun)
+			if ix, ok := fnId.(*ast.IndexExpr); ok {
+				fnId = ix.X
+			}
+			if id, ok := fnId.(*ast.Ident); ok && id.Name == "NewSkipDecoderTpl" {
+				aid, ok := stripParens(inner.Args[0]).(*ast.Ident)
+				if !ok || info.Uses[aid] != types.Object(f.fi.recv) {
+					f.fail(call, "NewSkipDecoderTpl over something that is not the receiver")
+				}
+				var skipN, tpl *fnInfo
+				for fo, ci := range f.t.all {
+					if ci.spec.name == "SkipN" && fo.Type().(*types.Signature).Recv() != nil &&
+						types.Identical(fo.Type().(*types.Signature).Recv().Type(), f.fi.recv.Type()) {
+						skipN = ci
+					}
+					if ci.spec.recv == "SkipDecoderTpl" && ci.spec.name == "Skip" {
+						tpl = ci
+					}
+				}
+				if skipN == nil || tpl == nil {
+					f.fail(call, "the receiver's SkipN or the generic Skip is not a translated function")
+				}
+				f.t.translate(skipN)
+				f.t.translate(tpl)
+				if skipN.why != "" || tpl.why != "" || !skipN.recvMut {
+					f.fail(call, "the receiver's SkipN or the generic Skip could not be translated")
+				}
+				f.deps[skipN], f.deps[tpl] = true, true
+				f.fuel = true
+				rn := f.nameOf(f.fi.recv)
+				a0 := f.expr(b, call.Args[0])
+				a1 := f.expr(b, call.Args[1])
+				t := f.fresh()
+				inst := fmt.Sprintf("({ skipN := fun s n => do let r ← %s s n; pure ((r.2.1, r.2.2), r.1) } : SkipNI %s)", skipN.spec.lean, f.tyOf(f.fi.recv))
+				b.add(fmt.Sprintf("let %s ← %s %s fuel %s %s %s", t, tpl.spec.lean, inst, rn, atom(a0), atom(a1)))
+				b.add(fmt.Sprintf("let %s := %s.1", rn, t))
+				return []string{t + ".2"}
 			}
 		}
 	}
